@@ -457,6 +457,11 @@ func slowGenBankOriginParser(length int) pars.Parser {
 				}
 			}
 
+			if len(bytes.TrimSpace(q[extent:])) != 0 {
+				pos.Byte += extent
+				return pars.NewError("residues beyond the declared sequence length", pos)
+			}
+
 			offset += copy(p[offset:], q[:extent])
 			p[offset] = '\n'
 			offset++
@@ -464,6 +469,16 @@ func slowGenBankOriginParser(length int) pars.Parser {
 		result.SetToken(p)
 		return nil
 	}
+}
+
+// expectNoMoreResidues tests what follows the ORIGIN block: a line that starts
+// with a blank can only be a further sequence line, which means that the
+// record holds more residues than its LOCUS line declares.
+func expectNoMoreResidues(state *pars.State) error {
+	if c, err := pars.Next(state); err == nil && c == spaceByte {
+		return pars.NewError("more residues than the declared sequence length", state.Position())
+	}
+	return nil
 }
 
 func makeGenbankOriginParser(length int) genbankSubparser {
@@ -484,7 +499,7 @@ func makeGenbankOriginParser(length int) genbankSubparser {
 			if validateOrigin(p, length, state.Position()) == nil {
 				state.Advance()
 				gb.Origin = &Origin{p, false}
-				return nil
+				return expectNoMoreResidues(state)
 			}
 
 			parser := slowGenBankOriginParser(length)
@@ -494,7 +509,7 @@ func makeGenbankOriginParser(length int) genbankSubparser {
 			p = result.Token
 
 			gb.Origin = &Origin{p, false}
-			return nil
+			return expectNoMoreResidues(state)
 		}
 	}
 }
